@@ -393,12 +393,16 @@ def fs_oracle(obs, x):
         iscancel = isinstance(x.exc, CancelledError)
         if cur != x.prev:
             if iscancel and cur == x.data:
-                # allowed only if the cancel raced the final rename
-                ren = [e for e in obs.events if e['kind'] == 'fs.rename.begin' and e.get('label') == x.label]
+                # allowed only if the cancel raced the final (publishing) step: every byte had
+                # already been written when the cancel call returned.  The window between the
+                # library's "was it cancelled?" check and the rename itself is not observable from
+                # outside, so data written after the cancel returned is what refutes the race.
                 cend = [e for e in obs.events if e['kind'] == 'cancel.end']
-                if not ren or (cend and ren[0]['n'] > cend[-1]['n']):
-                    out.append(V(f'{x.label}: cancelled, but the complete object was published by a rename that began after '
-                                 f'the cancel call had returned', **mech, sym='publish-after-cancel'))
+                late = [e for e in obs.events if e.get('label') == x.label and cend and e['n'] > cend[-1]['n']
+                        and e['kind'] in ('fs.write', 'body.read') and e.get('nbytes', 0) > 0]
+                if late:
+                    out.append(V(f'{x.label}: cancelled, but data kept being transferred after the cancel call returned '
+                                 f'and the complete object was published', **mech, sym='publish-after-cancel'))
             else:
                 out.append(V(f'{x.label}: failed ({type(x.exc).__name__}) but destination content changed '
                              f'(now {None if cur is None else len(cur)} bytes, previous '
